@@ -399,7 +399,7 @@ fn value(rng: &mut Rng) -> f64 {
         18 => rng.uniform(1.0, 10.0) * 1e6,
         _ => rng.small_decimal(5, 1),
     };
-    if rng.chance(1, 3) {
+    if rng.chance(1, 4) {
         -x
     } else {
         x
@@ -463,7 +463,7 @@ fn gen_case(rng: &mut Rng) -> Case {
                 0..=2 => None,
                 3 | 4 => Some(0.0),
                 5 => Some(-0.0),
-                6..=8 => Some(-value(rng).abs()),
+                6 | 7 => Some(-value(rng).abs()),
                 9 => Some(1.0),
                 _ => Some(value(rng).abs()),
             };
@@ -484,13 +484,33 @@ fn gen_case(rng: &mut Rng) -> Case {
         }
         _ => {}
     }
+    let mul = rng.chance(1, 3);
+    let (e, pe, ne) = (rng.below(6), rng.below(4), rng.below(4));
+    if mul && rng.chance(2, 3) {
+        // a product is annihilated by any zero factor: make most mul cases free of them
+        for f in feats.iter_mut() {
+            if f.weight.unwrap_or(0.0) == 0.0 {
+                f.weight = Some(0.5 + value(rng).abs());
+            }
+            if matches!(f.vrate, None | Some(VR::Zero)) {
+                f.vrate = Some(VR::Raw);
+            }
+            if rng.chance(2, 3) {
+                let mut parts = vec![NR::Edge(vec![(e, 0.25 + value(rng).abs())]), NR::Pair(vec![((pe, ne), 0.25 + value(rng).abs())])];
+                if let Some(r) = f.nrate.take() {
+                    parts.push(r);
+                }
+                f.nrate = Some(NR::Combined(parts));
+            }
+        }
+    }
     let mut prev: Vec<f64> = vec![];
     let mut next: Vec<f64> = vec![];
     for _ in 0..n {
         let p = if rng.chance(1, 4) { 0.0 } else { value(rng).abs() };
         let d = match rng.below(10) {
             0 | 1 => 0.0,
-            2..=4 => -value(rng).abs(),
+            2 | 3 => -value(rng).abs(),
             _ => value(rng).abs(),
         };
         prev.push(p);
@@ -510,7 +530,7 @@ fn gen_case(rng: &mut Rng) -> Case {
         }
         _ => {}
     }
-    Case { mul: rng.chance(1, 3), feats, prev, next, e: rng.below(6), pe: rng.below(4), ne: rng.below(4) }
+    Case { mul, feats, prev, next, e, pe, ne }
 }
 
 // ---------------------------------------------------------------- hand-written corpus
@@ -708,6 +728,7 @@ fn check_charged(ctx: &mut Ctx, idx: usize, site: &str, r: f64, s: f64, abs: f64
     }
     let tol = REL * abs;
     if s > tol {
+        ctx.count(&format!("{}_formula_compared", site));
         if (r - s).abs() > tol {
             ctx.fail(idx, &format!("{}/formula", site), format!("charged {} but weights x rated changes + surcharges = {}", r, s));
         }
@@ -902,9 +923,9 @@ fn one(ctx: &mut Ctx, idx: usize, case: &Case, rng: &mut Rng) {
 /// an empty feature list, weights shorter than the rates)
 fn ops_case(ctx: &mut Ctx, idx: usize, rng: &mut Rng) {
     let mul = rng.chance(1, 2);
-    let len = |rng: &mut Rng| if rng.chance(2, 3) { 4 } else { rng.below(6) };
+    let len = |rng: &mut Rng| if rng.chance(5, 6) { 4 } else { rng.below(6) };
     let ni = if rng.chance(1, 10) { 0 } else { 1 + rng.below(5) };
-    let hi = if rng.chance(1, 2) { 4 } else { 7 };
+    let hi = if rng.chance(2, 3) { 4 } else { 7 };
     let indices: Vec<usize> = (0..ni).map(|_| rng.below(hi)).collect();
     let weights: Vec<f64> = (0..len(rng)).map(|_| if rng.chance(1, 6) { 0.0 } else { value(rng) }).collect();
     let vrates: Vec<VR> = (0..len(rng)).map(|_| gen_vr(rng, 1)).collect();
